@@ -476,6 +476,7 @@ def _prior_study(draw, main, index):
 @st.composite
 def bench_run(draw, designers=lib.CHEAP, prior_percent=35):
   run = draw(_bench_core(draw(_designer(designers))))
+  run['second_state'] = draw(_mix(30))
   if draw(_mix(prior_percent)):
     run['prior_studies'] = [draw(_prior_study(run, i)) for i in range(
         2 if draw(_mix(20)) else 1)]
@@ -805,6 +806,18 @@ def check_bench(case):
   item = {'kind': 'bench', 'run': run}
   nt = _bench_classes(out, run)
   first = _pairs(out, 'R3', item, case['envs'])
+  # (only for the factory that is given an experimenter *factory*: a state
+  # factory built around one experimenter object shares it by construction)
+  if 'second' in first and not run.get('prior_studies') and (
+      run.get('via') != 'exptr'):
+    out.cls('second_state_from_same_factory')
+    if first['second'] != first['trials']:
+      out.violate('R3/second_state_of_same_factory/%s' % run['designer'],
+                  'the same seeded state factory gave another trial sequence '
+                  'the second time: first %.300r second %.300r' % (
+                      first['trials'][:2], first['second'][:2]
+                      if isinstance(first['second'], list)
+                      else first['second']))
   if len(first['trials']) >= 2:
     out.cls('two_or_more_trials')
   if any(t['status'] == 'ACTIVE' for t in first['trials']):
